@@ -248,7 +248,7 @@ def run(chk, repo, tier):
     # the bins of a density (normalised to the band integral) are what a unit change must preserve: the binning rules of C15
     from . import c15 as _c15
     from .common import Remap as _Remap
-    _c15.run(_Remap(chk, {'C15-e': 'C14-c'}), repo, tier)
+    _c15.run(_Remap(chk, {'C15-e': 'C14-c', 'C15-b': 'C14-c'}), repo, tier)
     # two spectra in different units are brought to one unit by the same conversions: which operand is converted, in which
     # unit the common grid is, and which unit the result is labelled with (the rules of spectrum arithmetic about units)
     from . import c13 as _c13
